@@ -1,0 +1,20 @@
+//go:build verif
+
+package vgirpc
+
+// Thin exported wrappers over the unexported response-codec negotiation
+// functions for the /verif conformance harness (module Negotiate, C17).
+// Each wrapper calls the real function and nothing else.
+
+// VerifParseAcceptEncoding runs parseAcceptEncoding.
+func VerifParseAcceptEncoding(header string) []string { return parseAcceptEncoding(header) }
+
+// VerifChooseResponseEncoding runs chooseResponseEncoding.
+func VerifChooseResponseEncoding(custom, standard string, producible []string) (string, bool) {
+	return chooseResponseEncoding(custom, standard, producible)
+}
+
+// VerifProducibleResponseEncodings runs producibleResponseEncodings.
+func (h *HttpServer) VerifProducibleResponseEncodings() []string {
+	return h.producibleResponseEncodings()
+}
